@@ -335,6 +335,17 @@ func genRdCases(c *Ctx) []json.RawMessage {
 			}
 		}
 	}
+	// adaptive initial size: the maximum over the last 10 released capacities (ring): one big cycle, then
+	// 9..12 small cycles; the allocation after the big size left the ring must be back to the default
+	for _, nsmall := range []int{8, 9, 10, 11, 12} {
+		ops := []RdOp{{"next", 20000}, {"release", 0}}
+		for i := 0; i < nsmall; i++ {
+			ops = append(ops, RdOp{"next", 10}, RdOp{"release", 0})
+		}
+		ops = append(ops, RdOp{"next", 5000}, RdOp{"peek", 3}, RdOp{"release", 0}, RdOp{"next", 1})
+		seed++
+		add(RdCase{Fl: "io", S: 20000 + 10*nsmall + 5010, Fk: "EOF", Wd: nsmall%2 == 0, Seed: seed % 251, Chunks: []int{20000, 10, 10, 10, 10, 10, 10, 10, 10, 10, 10, 10, 10, 5000}, Ops: ops})
+	}
 	// seeded random histories
 	rng := rand.New(rand.NewSource(c.Seed*7919 + 4))
 	nrand := c.Pick(1500, 20000)
